@@ -35,7 +35,7 @@ struct RxModel : mc::Model
     Rig rig;
     std::vector<int> ops;
     bool ifix_used = false; // at most one IFIX between two marker bytes (see bytes_of)
-    RxModel(int codec, int cap, bool small_alphabet) : rig(codec, cap, !gs::markers(codec).same())
+    RxModel(int codec, int cap, bool small_alphabet) : rig(codec, cap, !gsref::golden(codec).same())
     {
         bool same = rig.mon.M.same();
         for (int s = 0; s < NSYM; s++)
